@@ -506,6 +506,107 @@ Qed.
 Lemma kwt_drained M M' k k' : kwt M M' k k' -> kwt M M' (kdrained k) (kdrained k').
 Proof. intros [a b c d]. constructor; assumption. Qed.
 
+(* ------------------------------------------------------------------ tidiness along the unfiltered run (executable) *)
+Definition tidyb (r : rstate) (k : kst) : bool :=
+  forallb (fun wd => memN wd (wds k)) (map fst (pfw r)) && forallb (fun wd => memN wd (wds k)) (map snd (wfp r)).
+
+Lemma tidyb_sound r k : tidyb r k = true -> tidy r k.
+Proof.
+  unfold tidyb, tidy. intros H. apply andb_true_iff in H as [H1 H2]. rewrite forallb_forall in H1, H2.
+  split; intros wd Hwd; apply memN_out; auto.
+Qed.
+
+(* at every drained point of the UNFILTERED run, the normal form of the state is tidy *)
+Fixpoint tidy_along (C : cfg) (full_events : bool) (w : world) (k : kst) (r : rstate) (ops : list op) : Prop :=
+  tidy (fst (nform C r k)) (snd (nform C r k)) /\
+  match ops with
+  | [] => True
+  | o :: rest =>
+    match apply_op w o with
+    | None => tidy_along C full_events w k r rest
+    | Some _ =>
+      match run_one None C full_events w k r o with
+      | Some (w1, k1, r1, _) => tidy_along C full_events w1 k1 r1 rest
+      | None => True
+      end
+    end
+  end.
+
+Fixpoint tidy_alongb (C : cfg) (full_events : bool) (w : world) (k : kst) (r : rstate) (ops : list op) : bool :=
+  tidyb (fst (nform C r k)) (snd (nform C r k)) &&
+  match ops with
+  | [] => true
+  | o :: rest =>
+    match apply_op w o with
+    | None => tidy_alongb C full_events w k r rest
+    | Some _ =>
+      match run_one None C full_events w k r o with
+      | Some (w1, k1, r1, _) => tidy_alongb C full_events w1 k1 r1 rest
+      | None => true
+      end
+    end
+  end.
+
+Lemma tidy_alongb_sound C full ops : forall w k r, tidy_alongb C full w k r ops = true -> tidy_along C full w k r ops.
+Proof.
+  induction ops as [|o ops IH]; intros w k r H; cbn [tidy_along tidy_alongb] in *; apply andb_true_iff in H as [H1 H2];
+    (split; [apply tidyb_sound; exact H1|]); [exact I|].
+  destruct (apply_op w o); [|apply IH; exact H2].
+  destruct (run_one None C full w k r o) as [[[[w1 k1] r1] e1]|]; [apply IH; exact H2 | exact I].
+Qed.
+
+Definition tidy_from (C : cfg) (full_events : bool) (w : world) (ops : list op) : Prop :=
+  match construct C kinit (w_fs w) with
+  | None => True
+  | Some (r, k) => tidy_along C full_events w k r ops
+  end.
+
+Definition tidy_fromb (C : cfg) (full_events : bool) (w : world) (ops : list op) : bool :=
+  match construct C kinit (w_fs w) with
+  | None => true
+  | Some (r, k) => tidy_alongb C full_events w k r ops
+  end.
+
+Lemma tidy_fromb_sound C full w ops : tidy_fromb C full w ops = true -> tidy_from C full w ops.
+Proof.
+  unfold tidy_fromb, tidy_from. destruct (construct C kinit (w_fs w)) as [[r k]|]; [apply tidy_alongb_sound | intros _; exact I].
+Qed.
+
+(* Inotify.__init__ establishes the invariant of the world *)
+Lemma construct_wi C t r k : construct C kinit t = Some (r, k) -> wi C r k /\ pend r = None.
+Proof.
+  intros Hc. pose proof (construct_queue _ _ _ _ Hc) as Q.
+  assert (Gen : forall (P : rstate -> kst -> Prop),
+            P rinit0 kinit ->
+            (forall r0 k0 p r1 k1 wd, P r0 k0 -> add_watch C r0 k0 t p = Some (r1, k1, wd) -> P r1 k1) -> P r k).
+  { intros P P0 Pstep. revert Hc. unfold construct. destruct (fisdir (c_root C) t); [|discriminate].
+    destruct (add_watch C rinit0 kinit t (c_root C)) as [[[r1 k1] wd]|] eqn:Ea; [|discriminate].
+    pose proof (Pstep _ _ _ _ _ _ P0 Ea) as P1. destruct (c_recursive C); [|intros H; inversion H; subst; exact P1].
+    clear Ea. generalize (walk_dirs t (c_root C)). intros ps. revert r1 k1 P1.
+    induction ps as [|p ps IH]; intros r1 k1 P1 H; [inversion H; subst; exact P1|].
+    destruct (add_watch C r1 k1 t p) as [[[r2 k2] wd2]|] eqn:Ea2; [|discriminate].
+    apply (IH r2 k2 (Pstep _ _ _ _ _ _ P1 Ea2) H). }
+  assert (Hk : kwf k).
+  { apply (Gen (fun _ kk => kwf kk)); [split; [constructor | split; [constructor | intros w []]]|].
+    intros r0 k0 p r1 k1 wd H0 Ea. eapply (cl_add_watch C kwf (fun kk tt pp => kwf_add kk tt pp (c_mask C))); eassumption. }
+  assert (Hm : allmask (c_mask C) k).
+  { apply (Gen (fun _ kk => allmask (c_mask C) kk)); [intros w []|].
+    intros r0 k0 p r1 k1 wd H0 Ea.
+    eapply (cl_add_watch C (allmask (c_mask C)) (fun kk tt pp kk' wd0 Ha E => allmask_add (c_mask C) _ _ _ _ _ Ha E)); eassumption. }
+  assert (Hc1 : k_next_cookie k = 1).
+  { apply (Gen (fun _ kk => k_next_cookie kk = 1)); [reflexivity|].
+    intros r0 k0 p r1 k1 wd H0 Ea.
+    eapply (cl_add_watch C (fun kk => k_next_cookie kk = 1) (fun kk tt pp kk' wd0 Ha E => eq_trans (cookie_add _ _ _ _ _ _ E) Ha)); eassumption. }
+  assert (Hp : pend r = None).
+  { apply (Gen (fun rr _ => pend rr = None)); [reflexivity|].
+    intros r0 k0 p r1 k1 wd H0 Ea. rewrite (add_watch_pend C _ _ _ _ _ _ _ Ea). exact H0. }
+  split; [|exact Hp]. constructor.
+  - split; [exact Hk|]. rewrite Q. split; [split; [constructor | intros x []] | intros x []].
+  - exact Hm.
+  - rewrite Hc1. lia.
+  - intros c p E. rewrite Hp in E. discriminate.
+Qed.
+
 Section Two.
   Variable F : option (list evbase).
   Variable C : cfg.
@@ -631,5 +732,39 @@ Section Two.
       + rewrite EU1, SE. symmetry. exact EF1.
       + apply kwt_drained. eapply ksame_then_kwt; [exact EU2|].
         eapply kwt_then_ksame; [exact SK|]. apply ksame_sym. exact EF2.
+  Qed.
+
+  Theorem lag_seq full ops : forall w kU rU kF rF evs,
+    wi C rU kU -> wi C' rF kF -> tw rU kU rF kF -> tidy_along C full w kU rU ops ->
+    run_seq None C full w kU rU ops = Some evs ->
+    run_seq F C' full w kF rF ops = Some (filter (acc F) evs).
+  Proof.
+    induction ops as [|o ops IH]; intros w kU rU kF rF evs WU WF T [TU TA] H; cbn [run_seq] in *.
+    - inversion H; subst. reflexivity.
+    - destruct (apply_op w o) eqn:Ea; [|eapply IH; eassumption].
+      destruct (run_one None C full w kU rU o) as [[[[w1 kU1] rU1] e1]|] eqn:E1; [|discriminate].
+      destruct (lag_step full w kU rU kF rF o w1 kU1 rU1 e1 WU WF T TU E1) as [kF1 [rF1 [E2 [WU1 [WF1 T1]]]]].
+      rewrite E2.
+      destruct (run_seq None C full w1 kU1 rU1 ops) as [e2|] eqn:E3; [|discriminate].
+      cbn [option_map] in H. inversion H; subst evs.
+      rewrite (IH w1 kU1 rU1 kF1 rF1 e2 WU1 WF1 T1 TA E3). cbn [option_map]. now rewrite filter_app.
+  Qed.
+
+  (* FROM Inotify.__init__ ON: no hypothesis that mentions the filter *)
+  Theorem lag_from full w ops evs :
+    tidy_from C full w ops ->
+    run_from None C full w ops = Some evs ->
+    run_from F C' full w ops = Some (filter (acc F) evs).
+  Proof.
+    unfold run_from, tidy_from. intros TA H.
+    pose proof (construct_twin C WATCHDOG_ALL M' HM (w_fs w)) as T. fold C' in T.
+    destruct (construct C kinit (w_fs w)) as [[r k]|] eqn:Ec; [|discriminate].
+    destruct (construct C' kinit (w_fs w)) as [[r' k']|] eqn:Ec'; [|contradiction].
+    destruct T as [<- K].
+    destruct (construct_wi C _ _ _ Ec) as [WU Hp]. destruct (construct_wi C' _ _ _ Ec') as [WF _].
+    eapply lag_seq; try eassumption.
+    assert (NU : settle_now C r k = (r, k)) by (apply settle_now_idle; unfold pending_of; rewrite Hp; apply andb_false_r).
+    assert (NF : settle_now C' r k' = (r, k')) by (apply settle_now_idle; unfold pending_of; rewrite Hp; apply andb_false_r).
+    unfold tw, nform. rewrite NU, NF. cbn [fst snd]. split; [reflexivity | apply kwt_drained; exact K].
   Qed.
 End Two.
